@@ -112,6 +112,30 @@ func runConstructed(spec *gen.MsgSpec, reversed bool) (*conRun, error) {
 	if err := m.verify(ext, vs...); err != nil {
 		return nil, finding("spy-verify", "spy verifier rejects what the spy signer signed: %v", err)
 	}
+	if m.sm == nil {
+		// a verification attempt with OTHER external data (none, if the message was signed with some): whether it is
+		// refused or reaches the key, the key sees the structure over the protected bytes the message emits, and the
+		// message is what it was afterwards
+		probeExt := []byte("other external data")
+		if len(ext) > 0 {
+			probeExt = nil
+		}
+		protBefore, perr := m.headers().MarshalProtected()
+		dumpBefore := bridge.Dump(*m.headers())
+		probe := &bridge.SpyVerifier{Alg: cose.Algorithm(sp.Sigs[0].Key.Alg)}
+		_ = m.verify(probeExt, probe)
+		if perr == nil && probe.NCalls() > 0 {
+			if pn, e := rc.Parse(protBefore); e == nil {
+				want := refcose.SigStructure1(pn.Content, probeExt, *m.payload())
+				if !bytes.Equal(probe.Last().Content, want) {
+					return nil, finding("tbs-mismatch/other-external", "Verify with other external data handed the verifier a structure that is not the Sig_structure over the message's protected bytes\n got=%x\nwant=%x", probe.Last().Content, want)
+				}
+			}
+		}
+		if after := bridge.Dump(*m.headers()); after != dumpBefore {
+			return nil, finding("verify-changed-the-message", "a Verify call with other external data changed the message's headers\nbefore=%s\n after=%s", dumpBefore, after)
+		}
+	}
 	if m.headers().Unprotected == nil {
 		m.headers().Unprotected = cose.UnprotectedHeader{}
 	}
@@ -908,3 +932,82 @@ func checkC08Envelope(c c12SignCase) error {
 }
 
 func init() { register("c08env", checkC08Envelope) }
+
+// TestC08_RawStable: a message whose protected buckets are caller-supplied raw items in any head width (or came from
+// a decoder) encodes to the same bytes before and after it is signed over, verified and countersigned; the raw
+// items themselves stay as they were; the output is accepted by the decoder.
+func checkC08RawStable(c c02RawCase) error {
+	spy := &bridge.SpySigner{Alg: cose.Algorithm(c.Alg)}
+	sv := &bridge.SpyVerifier{Alg: cose.Algorithm(c.Alg)}
+	rnd := refcose.NewEntropy(nil)
+	type enc interface{ MarshalCBOR() ([]byte, error) }
+	var msg enc
+	var raws []*cbor.RawMessage
+	var verify func() error
+	var parent any
+	kind := refcose.KSign1
+	if c.Kind == refcose.KSign1 {
+		m := &cose.Sign1Message{Headers: cose.Headers{RawProtected: append([]byte{}, c.RawProt...), Protected: bridge.ToProtected(c.Prot)}, Payload: c.Payload}
+		if err := m.Sign(rnd, c.External, spy); err != nil {
+			stats.Class("refused/" + shortErr(err))
+			return nil
+		}
+		msg, raws, parent = m, []*cbor.RawMessage{&m.Headers.RawProtected}, m
+		verify = func() error { return m.Verify(c.External, sv) }
+	} else {
+		kind = refcose.KSign
+		s := &cose.Signature{Headers: cose.Headers{RawProtected: append([]byte{}, c.SigProt...), Protected: bridge.ToProtected(c.SigMap)}}
+		m := &cose.SignMessage{Headers: cose.Headers{RawProtected: append([]byte{}, c.RawProt...), Protected: bridge.ToProtected(c.Prot)}, Payload: c.Payload, Signatures: []*cose.Signature{s}}
+		if err := m.Sign(rnd, c.External, spy); err != nil {
+			stats.Class("refused/" + shortErr(err))
+			return nil
+		}
+		msg, raws, parent = m, []*cbor.RawMessage{&m.Headers.RawProtected, &s.Headers.RawProtected}, s
+		verify = func() error { return m.Verify(c.External, sv) }
+	}
+	var was [][]byte
+	for _, r := range raws {
+		was = append(was, append([]byte{}, *r...))
+	}
+	e1, err := msg.MarshalCBOR()
+	if err != nil {
+		stats.Class("marshal-refused/" + shortErr(err))
+		return nil
+	}
+	if err := verify(); err != nil {
+		return finding("spy-verify-error", "Verify with an accepting verifier fails right after Sign: %v", err)
+	}
+	cose.Countersign0(rnd, &bridge.SpySigner{Alg: cose.AlgorithmEdDSA}, parent, nil)
+	e2, err := msg.MarshalCBOR()
+	if err != nil || !bytes.Equal(e1, e2) {
+		return finding("encoding-changed-by-use", "the same message encodes differently before and after Verify / countersigning (err=%v)\nbefore=%x\n after=%x", err, e1, e2)
+	}
+	for i, r := range raws {
+		if !bytes.Equal(*r, was[i]) {
+			return finding("raw-bytes-rewritten", "RawProtected of layer %d was %x and is %x after Verify / countersigning", i, was[i], []byte(*r))
+		}
+	}
+	if _, derr := decodeAny(kind, e1); derr != nil {
+		if werr := refcose.WellFormed(kind, e1); werr == nil {
+			return finding("own-output-refused", "the decoder refuses the encoder's output although it is well-formed: %v\n%x", derr, e1)
+		}
+		stats.Class("raw-not-wellformed-cose")
+	}
+	if verify() != nil {
+		return finding("spy-verify-error", "second Verify of the same message fails")
+	}
+	stats.Class("raw-stable/" + c.Kind.String())
+	stats.NTBytes(e1)
+	return nil
+}
+
+func init() { register("c08rawstable", checkC08RawStable) }
+
+func TestC08_RawStable(t *testing.T) {
+	begin(t, "C08", "rawstable")
+	prop(t, func(rt *rapid.T) {
+		c := genC02RawCase(rt)
+		stats.Eval()
+		judge(rt, "c08rawstable", c, checkC08RawStable)
+	})
+}
